@@ -5,6 +5,15 @@ NOTES = ("Machine-checked proof in Lean 4 about a hand-written model that mirror
          "implementation's traces. See DESIGN.md.")
 NOT_YET = {}
 TEXT = {
+ "C10": {
+  "level": "Theorem C10_holds: for every history the C10 monitor accepts the model trace - after a check or update whose response lists n as rolled back, "
+           "n has no artifact and is not the next-boot patch after that call and every later one, until an update installs n again (or the release changes / "
+           "state files are damaged). Invariant RollD pushed through every patch-manager function, section and call (step_roll); the install path is handled "
+           "by the outcome case lemma afterCheck_cases. The same monitor runs on the real library's traces.",
+  "design_ref": "DESIGN.md section 3, C10",
+  "note": "Lean kernel; model/code correspondence sampled by this run's campaign.",
+  "technique": "Lean 4 theorem (inductive invariant over all histories) + differential correspondence check",
+ },
  "C02": {
   "level": "Theorem C02_holds: for every history the C02 monitor accepts the model trace - after a reported or crash-detected boot failure of n (same release, "
            "state files not damaged) n is banned on disk and in none of the three slots after every later operation, queries never report it, an update offered n "
